@@ -1,6 +1,6 @@
 #!/bin/bash
 # Independent confirmation of a seeded change before it is kept under /verif/seeded:
-#   tools/verify_seeded.sh <dir with patch.diff and demo.rs> [scratch worktree]
+#   [DEMO_FLAGS="--release"] [DEMO_FEATURES="rand,linalg"] tools/verify_seeded.sh <dir with patch.diff and demo.rs> [scratch worktree]
 # In a scratch worktree of /repo (outside /repo and /verif): the demo passes without the patch,
 # fails with it, and the crate's own test suite still passes with it. Prints one line per step and
 # a final "VERIFIED <dir>" / "REJECTED <dir> <why>".
@@ -13,9 +13,9 @@ cleanup() { git -C "$WT" checkout -q -- . 2>/dev/null; rm -rf "$WT/tests"; if [ 
 trap cleanup EXIT
 cd "$WT" || exit 2
 git checkout -q -- . ; rm -rf tests; mkdir tests; cp "$D/demo.rs" tests/demo.rs
-if cargo test --offline --features rand --test demo >"$D/.verify_demo_without.log" 2>&1; then echo "demo without patch: pass"; else echo "REJECTED $D demo fails on the pristine tree"; exit 1; fi
+if cargo test --offline ${DEMO_FLAGS:-} --features "${DEMO_FEATURES:-rand}" --test demo >"$D/.verify_demo_without.log" 2>&1; then echo "demo without patch: pass"; else echo "REJECTED $D demo fails on the pristine tree"; exit 1; fi
 git apply "$D/patch.diff" || { echo "REJECTED $D patch does not apply"; exit 1; }
-if cargo test --offline --features rand --test demo >"$D/.verify_demo_with.log" 2>&1; then echo "REJECTED $D demo passes with the patch"; exit 1; else
+if cargo test --offline ${DEMO_FLAGS:-} --features "${DEMO_FEATURES:-rand}" --test demo >"$D/.verify_demo_with.log" 2>&1; then echo "REJECTED $D demo passes with the patch"; exit 1; else
   if grep -q "^error" "$D/.verify_demo_with.log" && ! grep -q "test result: FAILED" "$D/.verify_demo_with.log"; then echo "REJECTED $D does not compile with the patch"; exit 1; fi
   echo "demo with patch: fail"; fi
 rm -rf tests
